@@ -67,7 +67,7 @@ def check(case):
     def counting(x):
         c = next(counter)
         calls.setdefault(x, []).append(c)
-        return (x, c)
+        return [x, c]  # a mutable example: the consumer may change it in place (step 'mut')
 
     keys = ['k%d' % i for i in range(n)]
     src = lazy_dataset.new(dict(zip(keys, range(n)))) if cont == 'dict' else lazy_dataset.new(list(range(n)))
@@ -98,7 +98,7 @@ def check(case):
             except Exception as e:
                 raise Violation('eager-cache-raised', f'{desc}\ncache(lazy=False) raised {type(e).__name__}: '
                                                       f'{str(e)[:300]}')
-            want = [(x, i + 1) for i, x in enumerate(xs)]
+            want = [[x, i + 1] for i, x in enumerate(xs)]
             if sum(len(v) for v in calls.values()) != n:
                 raise Violation('eager-call-count', f'{desc}\nupstream calls at construction {calls}')
             targets = [ds]
@@ -115,7 +115,8 @@ def check(case):
 
         def observe(p, v, path):
             nonlocal ever_short
-            if not (isinstance(v, tuple) and len(v) == 2 and v[0] == xs[p] and v[1] in calls.get(xs[p], [])):
+            last.append(v)
+            if not (isinstance(v, list) and len(v) == 2 and v[0] == xs[p] and v[1] in calls.get(xs[p], [])):
                 raise Violation(f'not-a-pipeline-value|{path}', f'{desc}\nposition {p} via {path} returned {v!r}; '
                                                                 f'upstream produced {calls.get(xs[p])} for {xs[p]}')
             paths_used.setdefault(p, set()).add(path)
@@ -128,7 +129,7 @@ def check(case):
                     raise Violation(f'not-frozen|{path}', f'{desc}\nposition {p} via {path} returned {v}; the value '
                                                           f'computed first (and cached) was {first[p]}')
             elif not ever_short and mem.available > thr:
-                first[p] = v
+                first[p] = list(v)
 
         def after_access():
             nonlocal ever_short
@@ -142,8 +143,18 @@ def check(case):
             if case.get('eager') and sum(len(v) for v in calls.values()) != n:
                 raise Violation('eager-recomputed', f'{desc}\nupstream calls {calls}')
 
+        last = []
         for step in case['steps']:
             kind = step[0]
+            if kind == 'mut':
+                # in-place change of everything the previous access returned: must never reach the cache
+                for obj in last:
+                    obj.append('mutated')
+                    obj[1] = -1
+                del last[:]
+                continue
+            if kind != 'copy':
+                del last[:]
             if kind == 'mem':
                 before = mem.available > thr
                 mem.available = step[1] * GIB
@@ -231,6 +242,8 @@ def st_case(draw):
             steps.append(['mem', draw(st.sampled_from([0.1, 60, 0.5, 40]))])
         elif r == 1:
             steps.append(['copy', draw(st.integers(0, 3))])
+        elif r == 2:
+            steps.append(['mut'])
         else:
             steps.append(['acc', draw(st.sampled_from(PATHS)), draw(st.integers(0, 9)), draw(st.integers(0, 3))])
     case['steps'] = steps
@@ -241,7 +254,7 @@ def run_shard(tier, idx, nshards, rec, known):
     progcheck.setup_process()
     out = Outcome()
     # bounded-exhaustive: all histories of length <= L over a small alphabet, n = 2
-    alphabet = [['acc', 'idx', 1, 0], ['acc', 'neg', 1, 0], ['acc', 'np32', 0, 1], ['acc', 'iter', 0, 1],
+    alphabet = [['mut'], ['acc', 'idx', 1, 0], ['acc', 'neg', 1, 0], ['acc', 'np32', 0, 1], ['acc', 'iter', 0, 1],
                 ['acc', 'slice', 1, 0], ['acc', 'key', 0, 0], ['copy', 0], ['mem', 0.1], ['acc', 'prefetch2', 0, 1]]
     L = 3 if tier == 'quick' else 4
     k = 0
